@@ -296,6 +296,10 @@ class TrajectoryCalc:
         :return: Barrel elevation to hit height zero at zero distance
         """
         self._init_trajectory(shot_info)
+        # Search upwards from the sight line, not from whatever zero and hold the shot carries at the moment: a start
+        # beyond the elevation of maximum range puts the iteration on the high-angle branch, where more elevation
+        # means a lower impact and the correction below has the wrong sign
+        self.barrel_elevation = self.look_angle
 
         _cZeroFindingAccuracy = self._config.cZeroFindingAccuracy
         _cMaxIterations = self._config.cMaxIterations
